@@ -123,8 +123,8 @@ def count_qed(pid):
         seen.add(f)
         txt = open(f).read()
         n += len(re.findall(r"\bQed\.", txt))
-        for line in re.findall(r"Require\s+(?:Import\s+|Export\s+)?([^.]*(?:\.[A-Za-z_][^.\s]*)*)\.", txt):
-            for mod in line.split():
+        for stmt in re.findall(r"Require\s+(?:Import\s+|Export\s+)?((?:[\w.]+\s*)+)\.(?:\s|$)", txt):
+            for mod in stmt.split():
                 if mod.startswith("BS."):
                     todo.append(os.path.join(COQ, "theories", mod[3:] + ".v"))
                 elif mod.startswith("BSprops."):
